@@ -211,6 +211,12 @@ def run(ctx):
                     if ra != want or rb != want or rows_of(v) != want:
                         ctx.spec_fail('cache|rows|two-iterators', 'cache(n=%s): two iterators taking turns do not both yield the wrapped table' % k,
                                       {'table': repr(T), 'n': k, 'turns': pat, 'first': repr(ra), 'second': repr(rb)})
+            # a template whose format spec refers to another field
+            if ci % 7 == 1:
+                NT = [['name', 'width', 'qty']] + [[rng.choice(['ab', 'c', 'défg']), rng.choice([3, 5, 8]), rng.choice([1, 22])] for _ in range(rng.choice([1, 2, 3]))]
+                ntm = rng.choice(['{name:<{width}}|{qty}\n', '{name:>{width}}|{qty:0{width}d}\n', '{qty:{width}}\n'])
+                compare('teetext', NT, lambda p: etl.teetext(NT, p, encoding='utf-8', template=ntm), lambda p: etl.totext(NT, p, encoding='utf-8', template=ntm),
+                        dict(template=ntm, nested_format_spec=True), True)
             # a pass-through view that was copied (copy / deepcopy / pickle round trip) is still a pass-through view
             import copy as _copy, pickle as _pickle
             for vname, mk in (('cache', lambda: etl.wrap(T).cache()), ('cache(n=1)', lambda: etl.wrap(T).cache(1)), ('wrap', lambda: etl.wrap(T)),
